@@ -289,10 +289,12 @@ impl<'a> StatementAnalyzer<'a> {
             }
         }
         self.program().expect_next_token(Token::Equals)?;
-        self.program().define_function(function_name, arg_names)?;
+        self.program().define_function(function_name.clone(), arg_names)?;
 
-        // Evaluate the function body.
-        self.evaluate_expression()?;
+        // Evaluate the function body. Calls are typed by the function's name
+        // (`FNA` yields a number, `FNA$` a string), so the body has to agree with it.
+        self.evaluate_expression()?
+            .check_variable_name(&function_name)?;
 
         Ok(())
     }
